@@ -294,6 +294,8 @@ fn check_c05(d: &Doc) -> Result<(), Fail> {
     let full = doc_text(d);
     let mut variants = vec![full.clone()];
     if std::env::var("VWIT_NOEOF").is_err() && full.ends_with('\n') && !full.ends_with("\n\n") && !d.paras.is_empty() && d.paras.last().unwrap().gap.is_empty() && d.paras.last().unwrap().trailing.is_empty() { variants.push(full[..full.len() - 1].to_string()); }
+    // ... and a document that ends in a comment without a line break (rebuilt by wrap_and_sort the comment is a token of the root)
+    if std::env::var("VWIT_NOEOF").is_err() && full.ends_with('\n') && !d.paras.is_empty() { variants.push(format!("{}\n# closing remark", full)); }
     for text in &variants {
         let np = d.paras.len();
         for a in c05_ops(np) {
@@ -621,6 +623,43 @@ mod rel {
             let (ll2, _) = LRelations::parse_relaxed(&t, true);
             let direct = ll2.wrap_and_sort().wrap_and_sort().to_string();
             if direct != text { return Err(Fail { prop: "C13".into(), input: shown, what: "normalising the returned object again (without re-reading it) changes it".into(), expected: text, got: direct }); }
+        }
+        Ok(n)
+    }
+    /// C11, explicit cases the histories do not generate: an entry losing its only alternative, the entry behind a
+    /// substitution variable, a field that already ends in a separator, a replacement relation with outer white space
+    pub fn extra_c11() -> Result<usize, Fail> {
+        use debian_control::lossless::relations::{Relations as LRelations, Relation as LRelation};
+        let p = |s: &str| LRelations::parse_relaxed(s, true).0;
+        let view = |f: &LRelations| -> Vec<Vec<String>> { f.entries().map(|e| e.relations().map(|x| x.to_string()).collect()).collect() };
+        let check = |what: &str, r: &LRelations, want: Vec<Vec<&str>>, known: Option<(&str, &str)>| -> Result<(), Fail> {
+            let text = r.to_string();
+            let want: Vec<Vec<String>> = want.into_iter().map(|e| e.into_iter().map(|x| x.to_string()).collect()).collect();
+            let (back, errs) = LRelations::parse_relaxed(&text, true);
+            let t = text.trim();
+            let sep_ok = !t.starts_with(',') && !t.ends_with(',') && !t.replace(' ', "").contains(",,") && !t.starts_with('|') && !t.ends_with('|');
+            if errs.is_empty() && view(&back) == want && view(r) == want && sep_ok { return Ok(()); }
+            if let Some((class, note)) = known { crate::anytext::note_known_pub(class, note); return Ok(()); }
+            Err(Fail { prop: "C11".into(), input: what.into(), what: "after the edit the field does not print to text that parses strictly to the model, or a separator is duplicated / dangling".into(), expected: format!("{:?}", want), got: format!("{:?} (live {:?}, re-read {:?}, {} errors)", text, view(r), view(&back), errs.len()) })
+        };
+        let mut n = 0;
+        for (t, e, k, want) in [("a, b", 1usize, 0usize, vec![vec!["a"]]), ("a, b, c", 1, 0, vec![vec!["a"], vec!["c"]]), ("a", 0, 0, vec![]), ("a | b, c", 0, 1, vec![vec!["a"], vec!["c"]]), ("${x}, a, b", 0, 0, vec![vec!["b"]])] {
+            let r = p(t); let mut en = r.get_entry(e).unwrap(); en.remove_relation(k); n += 1;
+            check(&format!("{:?}: get_entry({}).remove_relation({})", t, e, k), &r, want, None)?;
+        }
+        for (t, e, want) in [("${a}, foo", 0usize, vec![]), ("foo, ${a}", 0, vec![]), ("${a}, foo, bar", 0, vec![vec!["bar"]]), ("${a}, foo, bar", 1, vec![vec!["foo"]]), ("x, ${a}, foo", 1, vec![vec!["x"]])] {
+            let mut r = p(t); r.remove_entry(e); n += 1;
+            check(&format!("{:?}: remove_entry({})", t, e), &r, want, None)?;
+        }
+        // recorded findings (known-findings.txt): reported as KNOWN while they last, as a violation when anything else goes wrong
+        for t in ["a, x, ", "a, x,"] {
+            let mut r = p(t); r.push("y".parse().unwrap()); n += 1;
+            check(&format!("{:?}: push(y)", t), &r, vec![vec!["a"], vec!["x"], vec!["y"]], Some(("C11:push-after-trailing-comma", "\"a, x, \" then push(y) prints \"a, x, , y\": the separator is duplicated (the field still parses to the model)")))?;
+        }
+        {
+            let r = p("a | b , d"); let mut en = r.get_entry(0).unwrap();
+            if let Ok(x) = " x ".parse::<LRelation>() { en.replace(1, x); n += 1;
+                check("\"a | b , d\": get_entry(0).replace(1, \" x \".parse())", &r, vec![vec!["a", "x"], vec!["d"]], None)?; }
         }
         Ok(n)
     }
@@ -1230,6 +1269,10 @@ mod derive16 {
             };
             let p2: Lossy = y.to_paragraph();
             if lossy_items(&p2) != lossy_items(&p1) { return Err(fail(shown, "value -> paragraph -> value -> paragraph is not stable", format!("{:?}", lossy_items(&p1)), format!("{:?}", lossy_items(&p2)))); }
+            // equal values built separately print the same paragraph (hash-based containers iterate in an order of their own)
+            for _ in 0..12 {
+                if let Ok(z) = <T as FromDeb822Paragraph<Lossy>>::from_paragraph(&p0) { let p3: Lossy = z.to_paragraph(); if lossy_items(&p3) != lossy_items(&p1) { return Err(fail(shown, "the same paragraph read twice gives values that print differently", format!("{:?}", lossy_items(&p1)), format!("{:?}", lossy_items(&p3)))); } }
+            }
             // the lossless back-end gives the same fields
             let q1: Lossless = x.to_paragraph();
             let qi: Vec<(String, String)> = q1.items().collect();
@@ -1336,8 +1379,17 @@ mod typed20 {
     use std::str::FromStr;
     type Row = (&'static str, &'static str, bool);
     fn fail(input: &str, what: &str, expected: String, got: String) -> Fail { Fail { prop: "C20".into(), input: input.into(), what: what.into(), expected, got } }
+    /// second pass of the whole enumeration: every optional plain-text field that is present has the empty value
+    static EMPTY_OPTIONALS: std::sync::atomic::AtomicBool = std::sync::atomic::AtomicBool::new(false);
+    /// third pass: every multi-line value begins on the line after the field name (as ftp-master's and apt's files are laid out)
+    static NEXT_LINE: std::sync::atomic::AtomicBool = std::sync::atomic::AtomicBool::new(false);
     fn para_text(rows: &[Row], present: &dyn Fn(usize) -> bool) -> String {
-        rows.iter().enumerate().filter(|(i, r)| !r.2 || present(*i)).map(|(_, r)| format!("{}: {}\n", r.0, r.1.replace('\n', "\n "))).collect()
+        let empty = EMPTY_OPTIONALS.load(std::sync::atomic::Ordering::Relaxed);
+        let next_line = NEXT_LINE.load(std::sync::atomic::Ordering::Relaxed);
+        rows.iter().enumerate().filter(|(i, r)| !r.2 || present(*i)).map(|(_, r)|
+            if empty && r.2 && r.1 == "some text" { format!("{}:\n", r.0) }
+            else if next_line && r.1.contains('\n') { format!("{}:\n {}\n", r.0, r.1.replace('\n', "\n ")) }
+            else { format!("{}: {}\n", r.0, r.1.replace('\n', "\n ")) }).collect()
     }
     /// what the lossless reader shows: every paragraph as (name, value) pairs
     fn lossless(text: &str) -> Option<Vec<Vec<(String, String)>>> {
@@ -1352,6 +1404,10 @@ mod typed20 {
         if let Some(eq) = eq { if !eq(&v, &v2) { return Err(fail(text, &format!("{}: the printed value parses to a different value", kind), "an equal value".into(), format!("printed {:?}", t2))); } }
         let t3 = print(&v2);
         if t3 != t2 { return Err(fail(text, &format!("{}: printing, parsing and printing again gives a different text", kind), format!("{:?}", t2), format!("{:?}", t3))); }
+        // "prints identically again" for equal values built separately (hash-based containers iterate in an order of their own)
+        for _ in 0..12 {
+            if let Ok(w) = parse(text) { let t4 = print(&w); if t4 != t2 { return Err(fail(text, &format!("{}: the same text parsed twice prints two different texts", kind), format!("{:?}", t2), format!("{:?}", t4))); } }
+        }
         // field by field what the lossless reader shows for the same text (the sample texts are canonical)
         let (a, b) = (lossless(text), lossless(&t2));
         if !same_order { return Ok(()); }
@@ -1365,8 +1421,36 @@ mod typed20 {
         Ok(())
     }
     pub fn run() -> Result<usize, Fail> {
-        use super::derive16::table;
+        let a = run_once()?;
+        EMPTY_OPTIONALS.store(true, std::sync::atomic::Ordering::Relaxed);
+        let b = run_once();
+        EMPTY_OPTIONALS.store(false, std::sync::atomic::Ordering::Relaxed);
+        let b = b?;
+        NEXT_LINE.store(true, std::sync::atomic::Ordering::Relaxed);
+        let c = run_once();
+        NEXT_LINE.store(false, std::sync::atomic::Ordering::Relaxed);
+        Ok(a + b + c?)
+    }
+    /// typed list fields carry the lines the lossless reader shows, whatever the layout of the value
+    fn typed_lists() -> Result<usize, Fail> {
+        let want = Some(vec!["foo_1.0".to_string(), "bar_2.0".to_string()]);
         let mut n = 0;
+        for layout in ["Sources: foo_1.0\n bar_2.0\nBinaries: foo_1.0\n bar_2.0\n", "Sources:\n foo_1.0\n bar_2.0\nBinaries:\n foo_1.0\n bar_2.0\n"] {
+            let t = format!("Date: Thu, 01 Jan 2015 00:00:00 +0000\nFtpmaster: Someone\n{}Reason: ROM; obsolete\n", layout);
+            n += 1;
+            match debian_control::lossy::ftpmaster::Removal::from_str(&t) {
+                Ok(r) => {
+                    if r.sources != want { return Err(fail(&t, "lossy Removal: Sources does not carry the lines the lossless reader shows", format!("{:?}", want), format!("{:?}", r.sources))); }
+                    if r.binaries != want { return Err(fail(&t, "lossy Removal: Binaries does not carry the lines the lossless reader shows", format!("{:?}", want), format!("{:?}", r.binaries))); }
+                }
+                Err(e) => return Err(fail(&t, "lossy Removal: a well-formed record is rejected", "Ok".into(), e)),
+            }
+        }
+        Ok(n)
+    }
+    fn run_once() -> Result<usize, Fail> {
+        use super::derive16::table;
+        let mut n = typed_lists()?;
         let src = table("debian_control::lossy::Source"); let bin = table("debian_control::lossy::Binary");
         let masks: Vec<Box<dyn Fn(usize) -> bool>> = vec![Box::new(|_| true), Box::new(|_| false), Box::new(|i| i % 2 == 0), Box::new(|i| i % 3 == 1)];
         // ---- control files
@@ -1494,7 +1578,7 @@ fn main() {
     }
     if prop == "C11" {
         std::panic::set_hook(Box::new(|_| {}));
-        match rel::run_c11() { Ok(n) => { eprintln!("vwit C11: no failing input among {} edit steps", n); return; } Err(f) => f.print_and_exit() }
+        match rel::run_c11().and_then(|n| rel::extra_c11().map(|m| n + m)) { Ok(n) => { anytext::print_known(); eprintln!("vwit C11: no unlisted failing input among {} edit steps", n); return; } Err(f) => f.print_and_exit() }
     }
     if prop == "C13" {
         std::panic::set_hook(Box::new(|_| {}));
